@@ -94,6 +94,10 @@ class HostileScheduler(BaseScheduler):
             if t.state == TaskState.SCHEDULED and r.random() < 0.5:
                 # re-plan for the SAME time (possibly with another strategy / pool)
                 when = t.expected_start_time
+            if not t.release_time.is_invalid() and when < t.release_time:
+                # a placement never precedes the task's KNOWN release time (C10; Task.start asserts it): tasks of
+                # trace-replay graphs carry their own release times while they are still VIRTUAL
+                when = t.release_time
             if self._batching and r.random() < 0.6:
                 # batch placements: the same BatchStrategy object is handed to several tasks, also long
                 # after its earlier members have left the worker
@@ -155,7 +159,7 @@ class ScriptedScheduler(BaseScheduler):
                     if d["do"] == "load":
                         out.append(Placement.create_load_profile_placement(
                             work_profile=prof, placement_time=when, worker_pool_id=pool.id, worker_id=wid,
-                            loading_strategy=list(prof.loading_strategies)[0]))
+                            loading_strategy=list(prof.loading_strategies)[d.get("strategy", 1) - 1]))
                     else:
                         out.append(Placement.create_evict_profile_placement(
                             work_profile=prof, placement_time=when, worker_pool_id=pool.id, worker_id=wid))
